@@ -12,7 +12,7 @@
 (***************************************************************************)
 EXTENDS Snow, NoiseNames, Json
 
-CONSTANT PatSetB
+CONSTANTS PatSetB, BuilderDhs
 VARIABLE done
 
 sI == Atom("sI", 32)
@@ -47,16 +47,16 @@ KindsB(cz) ==
             [] c = "B_NO_cipher"        -> {"Init(GetCipherImpl)"}
             [] c = "B_NO_hash"          -> {"Init(GetHashImpl)"} : c \in cz }
 
-Scenario(p, role, hasS, hasRS, mods, lack) ==
+Scenario(p, role, hasS, hasRS, mods, lack, dh) ==
   LET psks == { n \in PskIdxOf(mods) : n <= 4 }
-      pp == PP(p, psks, 32, FALSE)          \* name is longer than 32 bytes for every case here except a few; see initpad below
-      nm == NameOf(p, mods, "25519", "ChaChaPoly", "SHA256")
+      pp == PP(p, psks, PubLen(dh), FALSE)
+      nm == NameOf(p, mods, dh, "ChaChaPoly", "SHA256")
       ppn == [pp EXCEPT !.initpad = Len(nm) <= 32]
       cfg == CfgB(role, hasS, hasRS, psks)
       cz == CausesB(p, role, hasS, hasRS, mods, lack)
       id == IF role = "i" THEN "I" ELSE "R"
   IN [family |-> "builder", name |-> nm, noreuse |-> FALSE,
-      prm |-> [pp |-> ppn, role |-> role, hasS |-> hasS, hasRS |-> hasRS, mods |-> mods, lack |-> lack],
+      prm |-> [pp |-> ppn, role |-> role, hasS |-> hasS, hasRS |-> hasRS, mods |-> mods, lack |-> lack, dh |-> dh],
       steps |-> << Step("build", id, [role |-> role, pp |-> ppn, cfg |-> cfg, lack |-> lack],
                         IF cz = {} THEN [res |-> "ok", obs |-> HsObs(Initialize(id, role, ppn, cfg))]
                         ELSE [res |-> "err", causes |-> cz, kinds |-> KindsB(cz)]) >>]
@@ -117,8 +117,8 @@ Init == done = FALSE /\ ep = <<>> /\ hist = <<>> /\ aeadLog = {}
 Next ==
   /\ ~done /\ done' = TRUE /\ UNCHANGED vars
   /\ \A p \in PatSetB : \A role \in {"i", "r"} : \A hasS \in BOOLEAN : \A hasRS \in BOOLEAN :
-       \A mods \in ModLists : \A lack \in Lacks :
-         PrintT(<<"SCN", ToJson(Scenario(p, role, hasS, hasRS, mods, lack))>>)
+       \A mods \in ModLists : \A lack \in Lacks : \A dh \in BuilderDhs :
+         PrintT(<<"SCN", ToJson(Scenario(p, role, hasS, hasRS, mods, lack, dh))>>)
   /\ \A role \in {"i", "r"} : \A which \in {"s", "rs", "e"} : \A len \in KeyLens : \A dh \in {"25519", "P256"} :
        PrintT(<<"SCN", ToJson(KeyLenScenario(role, which, len, dh))>>)
   /\ \A loc \in PskLocs : \A len \in PskLens :
